@@ -7,6 +7,8 @@
 //!   gate g<j> mod=m<i> cl=c<k> pos=<p> size=<s>   member `p` of the gate cluster `c<k>` (size `s`)
 //!   (gate … raw=1: the cluster member is created on its own with `create_raw_gate`, in script order)
 //!   (connect … q=<bytes>: the channel queues at most <bytes> (`Queue(Some(..))`) instead of without limit)
+//!   (connect … drop=1: `ChannelDropBehaviour::Drop` instead of `Queue`; jit=<ns>: the channel has that much jitter —
+//!    the arrival time of a message that crosses it is only known up to the sum of the jitters)
 //!   (send … burst=<n>: <n> messages back to back in the same handler; via=ctx|tuple|ref: the gate is found with
 //!    `current().gate(name, pos)`, addressed as `(name, pos)`, or passed as the GateRef kept at creation)
 //!   connect g<a> g<b> ch=none|<ns> [br=<bit/s>]   `g<a>.connect(g<b>, channel)`; channel = latency <ns>, bitrate
@@ -115,6 +117,8 @@ impl Node {
         let ok = op.a != op.b && ga.kind() != GateKind::Transit && gb.kind() != GateKind::Transit;
         if ok {
             QLIMIT.with(|q| q.set(None));
+            CHDROP.with(|d| d.set(false));
+            CHJIT.with(|j| j.set(0));
             ga.connect(gb, op.lat.map(|l| channel(l, op.br)));
         }
         self.shared.lock().unwrap().late_done.push((op.idx, if ok { "ok" } else { "skipped" }));
@@ -254,6 +258,9 @@ fn tx_of(ch: &ChannelRef) -> u128 {
 thread_local! {
     /// queue limit of the channel being built (`q=<bytes>` of the current connect line)
     static QLIMIT: std::cell::Cell<Option<usize>> = std::cell::Cell::new(None);
+    /// `drop=1` (ChannelDropBehaviour::Drop instead of Queue) and `jit=<ns>` of the current connect line
+    static CHDROP: std::cell::Cell<bool> = std::cell::Cell::new(false);
+    static CHJIT: std::cell::Cell<u64> = std::cell::Cell::new(0);
 }
 
 fn parse_chan(tok: &[&str]) -> (Option<u64>, u64) {
@@ -261,6 +268,8 @@ fn parse_chan(tok: &[&str]) -> (Option<u64>, u64) {
     let lat = hval(&l, "ch").and_then(|v| v.parse::<u64>().ok());
     let br = hval(&l, "br").and_then(|v| v.parse::<u64>().ok()).unwrap_or(0);
     QLIMIT.with(|q| q.set(hval(&l, "q").and_then(|v| v.parse::<usize>().ok())));
+    CHDROP.with(|d| d.set(hval(&l, "drop").is_some()));
+    CHJIT.with(|j| j.set(hval(&l, "jit").and_then(|v| v.parse::<u64>().ok()).unwrap_or(0)));
     (lat, br)
 }
 
@@ -268,8 +277,12 @@ fn channel(ns: u64, bitrate: u64) -> ChannelRef {
     Channel::new(ChannelMetrics {
         bitrate: bitrate as usize,
         latency: Duration::from_nanos(ns),
-        jitter: Duration::ZERO,
-        drop_behaviour: ChannelDropBehaviour::Queue(QLIMIT.with(|q| q.get())),
+        jitter: Duration::from_nanos(CHJIT.with(|j| j.get())),
+        drop_behaviour: if CHDROP.with(|d| d.get()) {
+            ChannelDropBehaviour::Drop
+        } else {
+            ChannelDropBehaviour::Queue(QLIMIT.with(|q| q.get()))
+        },
     })
 }
 
@@ -762,6 +775,9 @@ pub fn gen(seed: u64, count: usize, thorough: bool) -> String {
         // a channel: (latency, bitrate)
         // mode 3: either several unbounded-queue finite-bitrate hops, or exactly one finite-bitrate hop (with a
         // bounded queue) in the whole case — then all messages of a burst reach it at the same instant
+        // mode 1: some channels drop instead of queueing (both directions are used at the same time below), and in
+        // cases without shut-down modules some have jitter
+        let jcase = mode == 1 && !with_down && r.chance(1, 2);
         let single_limited = mode == 3 && r.chance(1, 3);
         let mut limited_left = if single_limited { 1 } else { 0 };
         let mut mkch = |r: &mut Rng| -> Option<(u64, u64, u64)> {
@@ -783,7 +799,9 @@ pub fn gen(seed: u64, count: usize, thorough: bool) -> String {
                 None
             } else if mode == 1 && r.chance(2, 3) {
                 // finite bitrate, half of them without any latency
-                Some((if r.chance(1, 2) { 0 } else { *r.pick(&DELAYS) }, *r.pick(&BITRATES), 0))
+                let dropc = if r.chance(1, 2) { 1000 } else { 0 };
+                let jit = if jcase && r.chance(1, 2) { 10000 * r.range(1, 3) } else { 0 };
+                Some((if r.chance(1, 2) { 0 } else { *r.pick(&DELAYS) }, *r.pick(&BITRATES), dropc + jit))
             } else if r.chance(1, 10) {
                 Some((0, 0, 0))
             } else {
@@ -809,6 +827,16 @@ pub fn gen(seed: u64, count: usize, thorough: bool) -> String {
             None => "ch=none".to_string(),
             Some((l, 0, _)) => format!("ch={l}"),
             Some((l, b, 0)) => format!("ch={l} br={b}"),
+            Some((l, b, x)) if x >= 1000 => format!(
+                "ch={l} br={b}{}{}",
+                if (x / 1000) % 10 == 1 { " drop=1" } else { "" },
+                match x / 10000 {
+                    1 => " jit=2",
+                    2 => " jit=1000",
+                    3 => " jit=100000",
+                    _ => "",
+                }
+            ),
             Some((l, b, q)) => format!("ch={l} br={b} q={}", q - 1),
         };
         // mode 2: one to three links are connected by some module while the simulation runs
@@ -886,14 +914,28 @@ pub fn gen(seed: u64, count: usize, thorough: bool) -> String {
         }
         let mut prev_gate = usize::MAX;
         let mut slot_of_prev = 0u64;
+        // mode 1: in half of the cases the two ends of the main chain send at the very same time: the two directions
+        // of every hop are used at once (they are independent channels, also when the channel drops instead of queueing)
+        let pairing = mode == 1 && r.chance(1, 2);
+        let mut pair: Option<(u64, u64, u64)> = None;
+        let first_end = chains[0][0];
+        let last_end = chains[0][chains[0].len() - 1];
         for g in targets {
             let reps = if r.chance(1, 4) { 2 } else { 1 };
-            for _ in 0..reps {
+            for rep in 0..reps {
                 let at = match r.below(4) {
                     0 | 1 => 0,
                     2 => 2 * r.range(1, 1000),
                     _ => *r.pick(&DELAYS),
                 };
+                let paired_first = pairing && rep == 0 && g == first_end && pair.is_none();
+                let paired_second = pairing && rep == 0 && g == last_end && g != first_end && pair.is_some();
+                if paired_second {
+                    let (pslot, pat, pdelay) = pair.take().unwrap();
+                    writeln!(out, "send s{s} gate=g{g} at={} delay={pdelay} from=msg", pslot * GAP + pat).unwrap();
+                    s += 1;
+                    continue;
+                }
                 // finite bitrates: one message (one burst) at a time in the whole network
                 // (mode 3: sometimes together with the previous burst when that started on another gate: opposite
                 // directions and different chains do not share a channel)
@@ -903,6 +945,12 @@ pub fn gen(seed: u64, count: usize, thorough: bool) -> String {
                 let at = if mode == 1 || mode == 3 { slot * GAP + at } else { at };
                 let delay = if r.chance(1, 2) { 0 } else { *r.pick(&DELAYS) + 2 * r.below(3) };
                 let from = if at == 0 && r.chance(1, 2) { "start" } else { "msg" };
+                if paired_first {
+                    pair = Some((slot, at - slot * GAP, delay));
+                    writeln!(out, "send s{s} gate=g{g} at={at} delay={delay} from=msg").unwrap();
+                    s += 1;
+                    continue;
+                }
                 let mut extra = String::new();
                 // how the gate is addressed
                 match r.below(4) {
@@ -940,7 +988,7 @@ pub fn gen(seed: u64, count: usize, thorough: bool) -> String {
                     write!(extra, " snd=m{}", r.below(nmods as u64)).unwrap();
                 }
                 // forwarding: the receiver sends the received message on (1-3 further legs)
-                if r.chance(1, 2) {
+                if !jcase && r.chance(1, 2) {
                     let far = |x: usize| -> usize {
                         for c in &chains {
                             if c[0] == x {
@@ -961,6 +1009,9 @@ pub fn gen(seed: u64, count: usize, thorough: bool) -> String {
                         let ends: Vec<usize> = cands.iter().cloned().filter(|x| far(*x) != *x).collect();
                         let pick = r.below(6);
                         if pick < 2 {
+                            // (mode 1: an immediate reply through the gate the message came in uses the other direction
+                            // of every hop, while the forward direction may still be transmitting)
+                            let d = if mode == 1 && legs.is_empty() && r.chance(1, 2) { 0 } else { d };
                             legs.push(format!("back:{d}"));
                             cur = far(cur);
                         } else if pick < 5 && !ends.is_empty() {
